@@ -41,14 +41,15 @@ def run(ctx, replay):
             ctx.violation(dict(kind="display-under-concurrent-first-use", what=(fatal or "panic or empty display")[:60]),
                           dict(event=e, stderr=r2.stderr[-3000:]))
             continue
-        ctx.violation(dict(kind="time-dispatch" if ("t2" in e or e.get("roll")) else "classification", type=e["t"]), dict(event=e))
-    ctx.extra["types_enumerated"] = sum(1 for e in events if "t2" not in e and not e.get("conc") and not e.get("roll"))
+        ctx.violation(dict(kind="crc-failing-frame-treated-by-its-type-bits" if e.get("crc") else ("time-dispatch" if ("t2" in e or e.get("roll")) else "classification"), type=e["t"]), dict(event=e))
+    ctx.extra["types_enumerated"] = sum(1 for e in events if "t2" not in e and not e.get("conc") and not e.get("roll") and not e.get("crc"))
+    ctx.extra["types_as_crc_failing_frames"] = sum(1 for e in events if e.get("crc"))
     ctx.extra["types_displayed_concurrently"] = sum(1 for e in events if e.get("conc"))
     ctx.extra["dispatch_pairs"] = sum(1 for e in events if "t2" in e)
     return ctx.finish(
         level="model_checking",
         rule="one case per message type in -2..4095 (complete enumeration, 4098 events, order and completeness checked by the spec); "
-             "each event carries every classifier's answer on that type and on a synthetic CRC-valid frame of that type; plus all 48 ordered pairs of MSM types of different timed constellations (the time conversion of one must not be disturbed by the other); plus one event per type 0..4095 from a fresh process whose first use of the library is eight goroutines displaying a frame of every type at once",
+             "each event carries every classifier's answer on that type and on a synthetic CRC-valid frame of that type; plus all 48 ordered pairs of MSM types of different timed constellations (the time conversion of one must not be disturbed by the other); plus every type 0..4095 once more as a frame whose CRC check fails (not typed, no timestamp, no times); plus one event per type 0..4095 from a fresh process whose first use of the library is eight goroutines displaying a frame of every type at once",
         assumptions=["the synthetic frame (timestamp 1000, all-zero body, 40-byte payload) is well-formed for every decoder family, so "
                      "'accepted by exactly its own family' is observable as err == nil",
                      "constellation names are compared after normalisation (case-insensitive token gps/glonass/galileo/sbas/qzss/beidou/navic)"],
